@@ -627,6 +627,30 @@ def gen_idiom(rng):
     return [first, second]
 
 
+def idiom_sweep():
+    """every pair (operation returning a new table, in-place operation on its result) on one fixed table with
+    metadata: what a result still shares with its receiver shows in the receiver, which is watched as a
+    bystander.  Deterministic, so that no sharing is found by the luck of a random sequence only."""
+    start = {'oids': ['o1', 'o2', 'o3'], 'sids': ['s1', 's2', 's3'],
+             'mat': [[1.0, 0.0, 2.0], [0.0, 3.0, 0.0], [4.0, 5.0, 6.0]],
+             'omd': [{'g': 'g1'}, {'g': 'g2'}, {'g': 'g1'}], 'smd': [{'g': 'g2'}, {'g': 'g1'}, {'g': 'g1'}],
+             'type': None, 'layout': ['csr']}
+    aux = [dict(start, oids=['p1', 'p2', 'p3'], sids=['q1', 'q2', 'q3'], layout=['csr'])] * 2
+    label = sorted(LABELS)[0]
+    for ax, other in (('observation', 'sample'), ('sample', 'observation')):
+        firsts = [['filter_ids', ax, 3, False, False, False], ['filter_pred', ax, sorted(PREDS)[0], True, False],
+                  ['remove_empty', ax, False], ['head', 2, 2], ['partition', ax, label, 0], ['copy'], ['transpose'],
+                  ['sort', ax], ['sort_order', ax, 5, 'perm'], ['update_ids', ax, 'suffix', False, False]]
+        seconds = [['update_ids', other, 'suffix', False, True], ['update_ids', other, 'swap', False, True],
+                   ['update_ids', ax, 'suffix', False, True], ['filter_ids', other, 3, False, True, False],
+                   ['filter_ids', ax, 1, False, True, False], ['add_metadata', other, 3, 'new', False],
+                   ['del_metadata', 'whole', ['g']], ['transform', other, sorted(TRANSFORMS)[0], True],
+                   ['remove_empty', 'whole', True]]
+        for a in firsts:
+            for b in seconds:
+                yield {'start': start, 'aux': aux, 'ops': [a, b], 'rot': (len(a) + len(b)) % 5}
+
+
 def gen_case(rng, depth):
     start = T.rand_spec(rng, max_r=4, max_c=4, values=rng.choice(['counts', 'small', 'signed', 'dyadic']),
                         md=rng.choice(['none', 'group', 'group', 'text', 'obs', 'samp', 'partial']), alphabet=rng.choice(['short', 'short', 'punct', 'latin1']))
@@ -644,6 +668,8 @@ def gen(rng, tier):
     depth = 6 if tier == 'quick' else 10
     for _ in range(n):
         yield gen_case(rng, depth)
+    for c in idiom_sweep():
+        yield c
     for k in range(16 if tier == 'quick' else 160):
         start = T.rand_spec(rng, max_r=3, max_c=3, values='counts', md=rng.choice(['none', 'group']), alphabet='short')
         yield {'kind': 'profile', 'start': start, 'axis': ['observation', 'sample'][k % 2], 'how': ['filter', 'pred'][(k // 2) % 2],
